@@ -134,8 +134,21 @@ fn etag_list_sym() {
     kani::cover!(r.is_some() && n == NL, "well-formed list using the whole buffer");
 }
 
-fn hv(b: &[u8]) -> HeaderValue {
-    HeaderValue::model_from_inline(b)
+static mut HV_BUF: [[u8; NL]; 2] = [[0; NL]; 2];
+
+/// A header value over STATIC storage (no heap copy: heap reads are opaque to the model checker).
+#[allow(static_mut_refs)]
+fn hv(b: &[u8], slot: usize) -> HeaderValue {
+    unsafe {
+        let mut i = 0;
+        while i < NL {
+            if i < b.len() {
+                HV_BUF[slot][i] = b[i];
+            }
+            i += 1;
+        }
+        HeaderValue::model_from_static_bytes(&HV_BUF[slot][..b.len()])
+    }
 }
 
 /// If-Match / If-None-Match against the entity's ETag: symbolic header bytes, symbolic ETag.
@@ -155,7 +168,7 @@ fn etag_match(which: u8, has_etag: bool) {
     let star = n == 1 && b[0] == b'*';
     kani::assume(r.is_some() || star);
 
-    let etag = if has_etag { Some(hv(e)) } else { None };
+    let etag = if has_etag { Some(hv(e, 1)) } else { None };
     let mut strong = false;
     let mut weak = false;
     if let (Some(m), true) = (r, has_etag) {
@@ -175,12 +188,12 @@ fn etag_match(which: u8, has_etag: bool) {
     }
     let mut h = HeaderMap::new();
     if which == 0 {
-        h.insert(header::IF_MATCH, hv(b));
+        h.insert(header::IF_MATCH, hv(b, 0));
         let am = any_match(&etag, &h);
         assert!(am == Ok(star || strong), "C04: If-Match decision deviates (strong comparison, `*` passes)");
         assert!(none_match(&etag, &h).is_none(), "C04: If-None-Match decision without the header");
     } else {
-        h.insert(header::IF_NONE_MATCH, hv(b));
+        h.insert(header::IF_NONE_MATCH, hv(b, 0));
         let nm = none_match(&etag, &h);
         assert!(nm == Some(!(star || weak)), "C04: If-None-Match decision deviates (weak comparison, `*` matches)");
         assert!(any_match(&etag, &h) == Ok(true), "C04: If-Match decision without the header");
